@@ -10,21 +10,39 @@ type dir struct {
 	fs     *ReadOnlyFS
 	name   string
 	offset int
+	closed bool
+}
+
+func (d *dir) closedErr(op string) error {
+	return &hackpadfs.PathError{Op: op, Path: d.name, Err: hackpadfs.ErrClosed}
 }
 
 func (d *dir) Read(p []byte) (n int, err error) {
+	if d.closed {
+		return 0, d.closedErr("read")
+	}
 	return 0, &hackpadfs.PathError{Op: "read", Path: d.name, Err: hackpadfs.ErrIsDir}
 }
 
 func (d *dir) Close() error {
+	if d.closed {
+		return d.closedErr("close")
+	}
+	d.closed = true
 	return nil
 }
 
 func (d *dir) Stat() (hackpadfs.FileInfo, error) {
+	if d.closed {
+		return nil, d.closedErr("stat")
+	}
 	return hackpadfs.Stat(d.fs, d.name)
 }
 
 func (d *dir) ReadDir(n int) ([]hackpadfs.DirEntry, error) {
+	if d.closed {
+		return nil, d.closedErr("readdir")
+	}
 	entries, err := hackpadfs.ReadDir(d.fs.sourceFS, d.name)
 	if err != nil {
 		return nil, err
